@@ -77,4 +77,29 @@ def VarsNodup (st : St) : Prop := ∀ v, v < st.vs.size → (getB st (getV st v)
 /-- the adjacency lists hold every constraint once (`populateSplitBlock` visits a neighbour once per occurrence) -/
 def AdjNodup (st : St) : Prop := ∀ v, v < st.vs.size → (getV st v).cOut.Nodup ∧ (getV st v).cIn.Nodup
 
+/-- `Blocks._list` enumerates, without repetition, exactly the blocks some variable points to, and every listed block knows
+its own index (`blockInd`) -/
+structure ListInv (st : St) : Prop where
+  nodup : st.list.toList.Nodup
+  covers : ∀ v, v < st.vs.size → (getV st v).block ∈ st.list.toList
+  inuse : ∀ b ∈ st.list.toList, ∃ v, v < st.vs.size ∧ (getV st v).block = b
+  ind : ∀ k (h : k < st.list.size), (getB st st.list[k]).ind = k
+
+/-- the three sums `PositionStats` keeps, recomputed from the variables listed in the block -/
+def sumAB (st : St) (b : B) : Rat :=
+  (b.vars.map (fun i => (getV st i).w * (b.scale / (getV st i).s) * ((getV st i).offset / (getV st i).s))).sum
+def sumAD (st : St) (b : B) : Rat :=
+  (b.vars.map (fun i => (getV st i).w * (b.scale / (getV st i).s) * (getV st i).d)).sum
+def sumA2 (st : St) (b : B) : Rat :=
+  (b.vars.map (fun i => (getV st i).w * (b.scale / (getV st i).s) * (b.scale / (getV st i).s))).sum
+
+/-- the position statistics of every block in use are those of its variables, and its position is the weighted optimum -/
+def StatsInv (st : St) : Prop :=
+  ∀ v, v < st.vs.size →
+    (getB st (getV st v).block).scale ≠ 0 ∧
+    (getB st (getV st v).block).AB = sumAB st (getB st (getV st v).block) ∧
+    (getB st (getV st v).block).AD = sumAD st (getB st (getV st v).block) ∧
+    (getB st (getV st v).block).A2 = sumA2 st (getB st (getV st v).block) ∧
+    (getB st (getV st v).block).posn = getPosn (getB st (getV st v).block)
+
 end Labella.Vpsc
